@@ -75,6 +75,11 @@ class Inventory(asset.Inventory):
         return tuple(self._content.keys())
 
     def get(self, application: str) -> appmod.Descriptor:
+        from detsim import kernel as kmod  # pylint: disable=import-outside-toplevel
+
+        k = kmod.current()
+        if k is not None and k.fault('inventory-io-error'):
+            raise OSError('injected transient inventory storage error')
         return self._content[application]
 
     def put(self, descriptor: appmod.Descriptor.Handle) -> None:
